@@ -60,9 +60,26 @@ def run(tier, seed):
         jobs.append({"id": jid, "files": {k: v for k, v in files.items() if k != late}, "late_files": {late: files[late]} if late else {},
                      "preload": [p_ for p_ in pre if p_ != late] + [entry] if late != entry else [p_ for p_ in pre if p_ != late],
                      "entry": entry, "search": search, "cwd": cwd, "stage": "front", "no_stdlib": True})
+    # the same trees with the entry path spelled relative to the working directory, plainly and with redundant './' components
+    style_of = {}
+    nstruct = len(gen_loader.structured())
+    for c in cfgs:
+        if c["id"] % 3 != 1 and c["id"] >= nstruct:
+            continue
+        files, entry, search, cwd = gen_loader.materialise(c)
+        jid = nfresh + len(reuse_of) + len(style_of)
+        style_of[jid] = (c["id"], "relative" if c["id"] % 2 else "dotted")
+        jobs.append({"id": jid, "files": files, "entry": entry, "search": search, "cwd": cwd, "stage": "front", "no_stdlib": True, "entry_style": style_of[jid][1]})
     res = runner.run_jobs(jobs)
     bad = []
     hist = collections.Counter()
+    for jid, (cid, style) in style_of.items():
+        a, b = res[cid], res[jid]
+        norm = lambda r_: re.sub(r"\S*/job\d+/|\./|\.\./", "", r_.get("what", "")).strip()
+        if (a["status"], a.get("funcs")) != (b["status"], b.get("funcs")) or (a["status"] != "ok" and norm(a).split(":")[0:2] != norm(b).split(":")[0:2]):
+            c = cfgs[cid]
+            bad.append((c, "entry path spelled %s: %s %s %s; spelled as an absolute path: %s %s %s"
+                        % (style, b["status"], b.get("funcs", ""), b.get("what", "").strip()[:150], a["status"], a.get("funcs", ""), a.get("what", "").strip()[:150]), b))
     for jid, cid in reuse_of.items():
         a, b = res[cid], res[jid]
         norm = lambda r_: re.sub(r"\S*/job\d+/", "", r_.get("what", "")).strip()
@@ -92,7 +109,7 @@ def run(tier, seed):
     for c, msg, rr in bad[:8]:
         files, entry, search, cwd = gen_loader.materialise(c)
         out.violation(msg, {"what": msg, "files": files, "entry": entry, "search": search, "cwd": cwd, "expected": exp[c["id"]], "got": rr}, "cfg%d" % c["id"])
-    cov = {"states": r.distinct, "transitions": r.generated, "traces_validated_against_impl": len(cfgs) + len(reuse_of), "loader_reuse_runs": len(reuse_of),
+    cov = {"states": r.distinct, "transitions": r.generated, "traces_validated_against_impl": len(cfgs) + len(reuse_of), "loader_reuse_runs": len(reuse_of), "entry_spelling_runs": len(style_of),
            "expected_outcomes": dict(hist), "samples": [{"files": gen_loader.materialise(cfgs[20])[0], "expected": exp[20]}],
            "rule": "module trees over three roots (entry's project root, one search path, working directory; the working directory may coincide with "
                    "either): 1-3 modules, each with copies in any subset of the roots (shadowing candidates), package line right / wrong / absent, "
